@@ -326,6 +326,26 @@ def no_shared_mutable_defaults(ctx, rep, rule: str) -> None:
     rep.floor(rule, "defaults examined", n, 15)
 
 
+def working_lists_hold_local_tensors(ctx, rep, rule: str) -> None:
+    """The per-block working lists the step computes on (momentum, filtered gradient, Adagrad second moment) hold
+    `block_info.get_tensor(<state entry>)` — the LOCAL tensor of the state entry: the identity for plain tensors, the local shard
+    for the DTensor state of the distributed allocators.  Appending the state entry itself mixes DTensors with plain tensors in
+    the foreach kernels for exactly those distributors."""
+    repo = ctx.repo
+    sites = [(f"{DS}._instantiate_momentum", "momentum"), (f"{DS}._instantiate_filtered_grads", "filtered_grad"), (f"{PL_MOD}:AdagradPreconditionerList.__init__", "adagrad")]
+    n = 0
+    for q, what in sites:
+        fi = repo.func(q)
+        apps = [c for c in A.calls(fi.node, nested=True) if isinstance(c.func, ast.Attribute) and c.func.attr == "append" and len(c.args) == 1]
+        elts = [c.args[0] for c in apps]
+        for e in elts:
+            n += 1
+            ex = ast.parse(A.expanded(repo.owner(e).node if repo.owner(e) is not None else fi.node, e), mode="eval").body
+            ok = isinstance(ex, ast.Call) and isinstance(ex.func, ast.Attribute) and ex.func.attr == "get_tensor" and len(ex.args) + len(ex.keywords) == 1
+            rep.ob(rule, f"working-list-holds-local-tensor:{short(q)}", ok, fi.loc(e), f"the {what} working list receives `{ast.unparse(ex)[:80]}`; documented: block_info.get_tensor(<the state entry>)", sample=True)
+    rep.floor(rule, "elements appended to the per-block working lists", n, 3)
+
+
 def loop_var_leak(ctx, rep, rule: str, funcs: list[str]) -> None:
     """No use of a for-loop target variable after its loop (it would silently refer to the last iteration only)."""
     repo = ctx.repo
